@@ -129,7 +129,8 @@ def compile_level(ctx):
         if "A" in names and "a" in names:
             desc["kerning"] = {("A", "a"): -20}
         if ps:
-            desc["lib"]["public.postscriptNames"] = {k: v for k, v in ps.items() if k in names and v}
+            # .notdef must keep its name (a CFF charset starts with .notdef; renaming it is a user error)
+            desc["lib"]["public.postscriptNames"] = {k: v for k, v in ps.items() if k in names and v and k != ".notdef"}
         flavor, kw = rng.choice([("ttf", {}), ("otf", {"cffVersion": 1}), ("otf", {"cffVersion": 2})])
         comp = ufo2ft.compileTTF if flavor == "ttf" else ufo2ft.compileOTF
         case = {"font": jsonable(desc), "flavor": flavor, "options": kw}
